@@ -20,7 +20,7 @@ type LayoutCfg struct {
 	NoSameLineAfterLong bool
 }
 
-var asciiWords = []string{"todo", "x = 1", "note:", "end", "[", "]", "a-b", "'", "\"", "if then", "123"}
+var asciiWords = []string{"todo", "x = 1", "note:", "end", "[", "]", "a-b", "'", "\"", "if then", "123", "[= note", "[==", "[=]", "[ x", "[=x[", "]]", "]=]"}
 var bmpWords = []string{"привет", "мир", "é", "中文", "注释", "ñandú"}
 var astralWords = []string{"😀", "𝒳", "🚀ok"}
 
@@ -39,6 +39,19 @@ func commentText(t *rapid.T, lay LayoutCfg) string {
 		parts = append(parts, rapid.SampledFrom(pool).Draw(t, "cmtWord"))
 	}
 	return strings.Join(parts, " ")
+}
+
+// opensLongBracket: s starts with `[`, any number of `=`, `[` — directly after `--` that would open a
+// long comment. `[= note` or `[==` do not: such a comment is an ordinary short one.
+func opensLongBracket(s string) bool {
+	if !strings.HasPrefix(s, "[") {
+		return false
+	}
+	i := 1
+	for i < len(s) && s[i] == '=' {
+		i++
+	}
+	return i < len(s) && s[i] == '['
 }
 
 // CanGlue reports whether writing a directly followed by b tokenises as exactly a, b.
@@ -87,7 +100,7 @@ func separator(t *rapid.T, lay LayoutCfg, prev, next string, preferNL bool, inde
 		case 7:
 			// short comment: runs to the end of the line. Its text must not start like a long bracket.
 			txt := commentText(t, lay)
-			if strings.HasPrefix(txt, "[") {
+			if opensLongBracket(txt) {
 				txt = " " + txt
 			}
 			b.WriteString("--" + txt + lay.eol(t))
